@@ -288,6 +288,8 @@ func c19(c *Ctx) (*report.Result, error) {
 
 	res.Explanation = "SSA of encryption.GetServerTLSConfig / GetClientTLSConfig / fetchCACert (every store into a *tls.Config field, its constant or origin, and the SkipCAVerification side it lies on; propagation of CA-load errors), and a who-constructs scan over all non-test functions of the module for tls.Server/Client/Listen/Dial/NewListener, credentials.NewTLS, tls.Config literals and stores to security-relevant tls.Config fields. What a tls.Config enforces is fixed by these fields; the handshake itself (crypto/tls) is trusted. Does not decide certificate validity periods or behaviour of crypto/tls."
 	res.Assumptions = []string{"crypto/tls verifies the client chain against ClientCAs only for VerifyClientCertIfGiven / RequireAndVerifyClientCert, and requires a certificate only for RequireAnyClientCert / RequireAndVerifyClientCert", "auth.NewEmptyTLSConfig returns a config without relaxations"}
+	res.RuleDoc["O19.9"] = "polarity of the on/off switch: GetServerTLSConfig and GetClientTLSConfig return a nil config with a nil error (taken by every caller as 'plaintext') only on the side on which IsEnabled() is false"
+	checkTLSGatePolarity(c, res, "O19.9")
 	res.RuleDoc["O19.8"] = "no swallowed error in the files the mechanism lives in: no function returns a nil error on a path on which an error obtained from a call is known to be non-nil (io.EOF from a stream Recv, the normal end of a receive loop, is the one accepted idiom)"
 	checkNoSwallowedErrors(c, res, "O19.8", []string{"encryption/tls.go", "transport/mux/receiver.go", "transport/mux/establisher.go", "proxy/cluster_connection.go"})
 	return res, nil
